@@ -68,6 +68,20 @@ func (c *c20Case) canon() string {
 	for _, n := range names {
 		b.WriteString("--" + n + "\n" + c.Files[n] + "\n")
 	}
+	var extra []string
+	for n, t := range c.Links {
+		extra = append(extra, "link "+n+" -> "+t)
+	}
+	for _, d := range c.Dirs {
+		extra = append(extra, "dir "+d)
+	}
+	for k, v := range c.Env {
+		extra = append(extra, "env "+k+"="+v)
+	}
+	sort.Strings(extra)
+	for _, x := range extra {
+		b.WriteString(x + "\n")
+	}
 	return b.String()
 }
 
@@ -105,12 +119,21 @@ var digitsRe = regexp.MustCompile(`[0-9]+`)
 
 // msgHead: the fixed head of a message: cut at the first colon or quote, numbers blanked, at most five words.
 func msgHead(m string) string {
+	full := m
 	for _, sep := range []string{"\n", ": ", " '", " \"", "`", " ["} {
 		if i := strings.Index(m, sep); i >= 0 {
 			m = m[:i]
 		}
 	}
 	m = strings.TrimSuffix(m, ":")
+	if pre, rest, ok := strings.Cut(full, ": "); ok && pre == m && !strings.Contains(pre, " ") {
+		// "json: cannot unmarshal ...": a package prefix alone says nothing, keep two more words
+		w := strings.Fields(msgHead(rest))
+		if len(w) > 2 {
+			w = w[:2]
+		}
+		return strings.TrimSpace(pre + ": " + strings.Join(w, " "))
+	}
 	w := strings.Fields(digitsRe.ReplaceAllString(m, "#"))
 	if len(w) > 5 {
 		w = w[:5]
